@@ -10,7 +10,8 @@
 //! ops:  `mx shape=<chain|star|deep> n=<k> cause=<kill|stop> racer=<none|link:c:p|unlink:c:p>`
 //!       `g <tid> <point the thread was parked at>`     obs: `<point it parked at next|done> |<snapshot>`
 //!       `rest`                                          obs: `ok |<snapshot>`
-//! snapshot: ` i:Status:sup:kids:0 …` as in treerace.rs.
+//! snapshot: ` i:Status:sup:kids:0 …` as in treerace.rs, kids = `x` for a CLOSED child set (hook
+//! `ActorCell::verif_children_closed`), `-` for an open empty one.
 
 use std::sync::atomic::{AtomicBool, Ordering};
 use std::sync::mpsc::{channel, Receiver, Sender};
@@ -43,7 +44,9 @@ fn snapshot(cells: &[ActorCell]) -> String {
         let sup = c.try_get_supervisor().map(|p| idx(&p).map(|x| x.to_string()).unwrap_or("?".into())).unwrap_or("-".into());
         let mut kk: Vec<usize> = c.get_children().iter().map(|k| idx(k).unwrap_or(usize::MAX)).collect();
         kk.sort();
-        let kids = if kk.is_empty() {
+        let kids = if c.verif_children_closed() {
+            "x".to_string()
+        } else if kk.is_empty() {
             "-".to_string()
         } else {
             kk.iter().map(|k| if *k == usize::MAX { "?".to_string() } else { k.to_string() }).collect::<Vec<_>>().join(",")
@@ -66,6 +69,8 @@ struct Case {
     /// supervisor of actor i (None = root / orphan)
     parent: Vec<Option<usize>>,
     cause: &'static str,
+    /// who gets the exit cause (one or two actors at once)
+    targets: Vec<usize>,
     racer: Racer,
 }
 
@@ -153,17 +158,25 @@ fn run_case(log: &mut Log, st: &mut Stats, c: &Case, rng: &mut Rng) {
     };
     let par: Vec<String> = c.parent.iter().map(|p| p.map(|x| x.to_string()).unwrap_or("-".into())).collect();
     log.rec(
-        format!("mx shape={} n={n} parents={} cause={} racer={racer_s}", c.shape, par.join(","), c.cause),
+        format!(
+            "mx shape={} n={n} parents={} cause={} targets={} racer={racer_s}",
+            c.shape,
+            par.join(","),
+            c.cause,
+            c.targets.iter().map(|t| t.to_string()).collect::<Vec<_>>().join(",")
+        ),
         format!("ok |{}", snapshot(&cells)),
     );
     st.bump("cases");
     st.bump(&format!("shape.{}", c.shape));
     st.bump(&format!("racer.{}", racer_s.split(':').next().unwrap()));
     // the exit cause of the root, from the (unregistered) controller thread
-    if c.cause == "kill" {
-        cells[0].kill();
-    } else {
-        cells[0].stop(None);
+    for t in &c.targets {
+        if c.cause == "kill" {
+            cells[*t].kill();
+        } else {
+            cells[*t].stop(None);
+        }
     }
     for g in &gos {
         let _ = g.send(());
@@ -279,19 +292,33 @@ fn main() {
         let (shape, mut parent) = shapes()[(k % 4) as usize].clone();
         let cause = if rng.chance(3, 4) { "kill" } else { "stop" };
         let n0 = parent.len();
-        let racer = match rng.below(4) {
+        let racer = match rng.below(5) {
             0 => Racer::None,
             1 | 2 => {
                 // an orphan (own thread too) linked under any actor of the tree
                 parent.push(None);
                 Racer::Link(n0, rng.below(n0 as u64) as usize)
             }
+            3 => {
+                // hand-over: a child of the tree is linked under the extra healthy root
+                parent.push(None);
+                Racer::Link(1 + rng.below(n0 as u64 - 1) as usize, n0)
+            }
             _ => {
                 let c = 1 + rng.below(n0 as u64 - 1) as usize;
                 Racer::Unlink(c, parent[c].unwrap())
             }
         };
-        let case = Case { shape, parent, cause, racer };
+        // mostly the root; sometimes an inner actor (its cleanup then unlinks it from a live supervisor),
+        // sometimes two actors at once
+        let mut targets = vec![if rng.chance(2, 3) { 0 } else { rng.below(n0 as u64) as usize }];
+        if rng.chance(1, 3) {
+            let t2 = rng.below(n0 as u64) as usize;
+            if !targets.contains(&t2) {
+                targets.push(t2);
+            }
+        }
+        let case = Case { shape, parent, cause, targets, racer };
         run_case(&mut log, &mut st, &case, &mut rng);
     }
     st.add("lines", log.lines);
